@@ -31,3 +31,20 @@ Example C01_example :
   let s := fst (run c (repeat 0 200) (init 2 [OSubmit 1; OSubmit 2; OExit])) in
   futs s = [FRes 1; FRes 2] /\ main s = MEnd.
 Proof. vm_compute. split; reflexivity. Qed.
+
+(* ---- the same for the per-call-process executor and for the dependency resolver in front of
+   either executor (Proofs/Fidelity.v): a future that holds a result holds its own call's value ---- *)
+From EL Require Model.StepExec Model.DepExec Proofs.StepSafe Proofs.DepSafe Proofs.Fidelity.
+Theorem C01_fidelity_percall :
+  forall c n prog x i v,
+    wf_prog n prog -> StepSafe.xreach c (StepExec.xinit n prog) x -> 1 <= i ->
+    getf (StepExec.base x) i = FRes v -> v = i.
+Proof. exact Fidelity.step_fidelity. Qed.
+Print Assumptions C01_fidelity_percall.
+
+Theorem C01_fidelity_resolver :
+  forall c n prog d i v,
+    wf_prog n prog -> DepSafe.wf_deps c n -> DepSafe.dreach c (DepExec.dinit n prog) d -> 1 <= i ->
+    getf (DepExec.dbase d) i = FRes v -> v = i.
+Proof. exact Fidelity.dep_fidelity. Qed.
+Print Assumptions C01_fidelity_resolver.
